@@ -224,12 +224,85 @@ fn flush(rep: &mut Report) {
     rep.hit_n("leaves_of_different_lengths", DIFF_LEN.with(|c| c.replace(0)));
 }
 
+// ------------------------------------------------------------------ long runs past 2^32 frames
+/// One adaptor value driven for 2^32 + 2^12 frames: any per-call counter kept in 32 bits wraps
+/// inside the run, any 64-bit one does not. Source frame n is `((n % 4093) + 1) / 8192` (exact in
+/// f64, never zero, so silence is distinguishable); every output frame is compared with the pointwise function of
+/// the source frame(s) it must come from and the source pull count is checked at the end.
+/// Each adaptor runs on its own thread; cost is a few ns per frame.
+fn long_runs(rep: &mut Report, threads: usize, frames: u64) {
+    fn src(n: u64) -> f64 {
+        ((n % 4093) + 1) as f64 / 8192.0
+    }
+    fn source(pulls: std::rc::Rc<Cell<u64>>) -> impl Signal<Frame = f64> {
+        dasp_signal::gen_mut(move || {
+            let n = pulls.get();
+            pulls.set(n + 1);
+            src(n)
+        })
+    }
+    const KINDS: [&str; 11] = ["delay(3)", "delay(3).map", "map", "scale_amp", "offset_amp", "clip_amp", "inspect", "add_amp", "mul_amp", "zip_map", "delay(1).add_amp(delay(2))"];
+    let reps = vmon::par_for(threads, KINDS.len() as u64, 1, |_| Report::new("C04", "w"), |rep, i| {
+        let kind = KINDS[i as usize];
+        let case = format!("long=1;kind={};frames={}", i, frames);
+        let r = vmon::catch(std::panic::AssertUnwindSafe(|| -> Result<(), String> {
+            let (pa, pb) = (std::rc::Rc::new(Cell::new(0u64)), std::rc::Rc::new(Cell::new(0u64)));
+            let seen = std::rc::Rc::new(Cell::new(0u64));
+            let seen2 = seen.clone();
+            // (signal, expected(n), expected pulls of source a after `frames` outputs, of source b)
+            let (mut sig, want, pulls_a, pulls_b): (Box<dyn Signal<Frame = f64>>, Box<dyn Fn(u64) -> f64>, u64, u64) = match i {
+                0 => (Box::new(source(pa.clone()).delay(3)), Box::new(|n| if n < 3 { 0.0 } else { src(n - 3) }), frames - 3, 0),
+                1 => (Box::new(source(pa.clone()).delay(3).map(|x: f64| x * 2.0)), Box::new(|n| if n < 3 { 0.0 } else { src(n - 3) * 2.0 }), frames - 3, 0),
+                2 => (Box::new(source(pa.clone()).map(|x: f64| x + 1.0)), Box::new(|n| src(n) + 1.0), frames, 0),
+                3 => (Box::new(source(pa.clone()).scale_amp(0.5)), Box::new(|n| src(n) * 0.5), frames, 0),
+                4 => (Box::new(source(pa.clone()).offset_amp(0.25)), Box::new(|n| src(n) + 0.25), frames, 0),
+                5 => (Box::new(source(pa.clone()).clip_amp(0.25)), Box::new(|n| src(n).min(0.25)), frames, 0),
+                6 => (Box::new(source(pa.clone()).inspect(move |_x: &f64| seen2.set(seen2.get() + 1))), Box::new(src), frames, 0),
+                7 => (Box::new(source(pa.clone()).add_amp(source(pb.clone()))), Box::new(|n| src(n) + src(n)), frames, frames),
+                8 => (Box::new(source(pa.clone()).mul_amp(source(pb.clone()))), Box::new(|n| src(n) * src(n)), frames, frames),
+                9 => (Box::new(source(pa.clone()).zip_map(source(pb.clone()), |a: f64, b: f64| a - 0.5 * b)), Box::new(|n| src(n) - 0.5 * src(n)), frames, frames),
+                _ => (Box::new(source(pa.clone()).delay(1).add_amp(source(pb.clone()).delay(2))), Box::new(|n| (if n < 1 { 0.0 } else { src(n - 1) }) + (if n < 2 { 0.0 } else { src(n - 2) })), frames - 1, frames - 2),
+            };
+            for n in 0..frames {
+                let got = sig.next();
+                let w = want(n);
+                if got != w {
+                    return Err(format!("output {} = {:e}, expected {:e} (sources pulled {} / {} times so far)", n, got, w, pa.get(), pb.get()));
+                }
+            }
+            if pa.get() != pulls_a || pb.get() != pulls_b {
+                return Err(format!("after {} outputs the sources were pulled {} / {} times, expected {} / {}", frames, pa.get(), pb.get(), pulls_a, pulls_b));
+            }
+            if i == 6 && seen.get() != frames {
+                return Err(format!("inspect closure ran {} times in {} outputs", seen.get(), frames));
+            }
+            Ok(())
+        }));
+        match r {
+            Ok(Ok(())) => {}
+            Ok(Err(d)) => rep.violation(&format!("adaptor|long_run|{}", kind), format!("{} driven for {} frames: {}", kind, frames, d), case),
+            Err(m) => rep.violation(&format!("adaptor|long_run|{}|panic", kind), format!("{} driven for {} frames: panicked: {}", kind, frames, m), case),
+        }
+        rep.eval(frames);
+        rep.nontrivial_by_construction(1);
+        rep.hit("adaptors_driven_past_2_pow_32_frames");
+    });
+    for r in reps {
+        rep.merge(r);
+    }
+}
+
 fn main() {
     let cli = Cli::parse();
     let t0 = Instant::now();
     let mut rep = Report::new("C04", &cli.stage);
     if let Some(cs) = &cli.case {
         let m = vmon::cli::parse_case(cs);
+        if m.contains_key("long") {
+            long_runs(&mut rep, cli.threads, m["frames"].parse().unwrap());
+            flush(&mut rep);
+            finish(&cli, rep, t0);
+        }
         let node = Node::decode(&m["tree"]);
         let lens: Vec<Option<u64>> = m["lens"].split('.').map(|x| if x == "inf" { None } else { Some(x.parse().unwrap()) }).collect();
         let resume = if m["resume"] == "none" {
@@ -241,6 +314,10 @@ fn main() {
         run_any(&mut rep, &m["fmt"], &node, &lens, m["n"].parse().unwrap(), resume);
         flush(&mut rep);
         finish(&cli, rep, t0);
+    }
+    if cli.stage == "main" && usize::BITS >= 64 {
+        rep.oblige("adaptors_driven_past_2_pow_32_frames", 11);
+        long_runs(&mut rep, cli.threads, (1u64 << 32) + (1 << 12));
     }
     rep.oblige("by_ref_resumes", 1);
     rep.oblige("leaves_of_different_lengths", 1);
